@@ -106,6 +106,44 @@ theorem dispatchUntil_exact (prog : Prog) (fuel t : Nat) (s : S) :
   rw [takeAdm_simTime] at this
   exact this
 
+/-- **`dispatch_events_until(T)` dispatches exactly the events with timestamp ≤ `T`** — on the
+    calendar-queue runtime, from the paused state of any session (any builder limit, which a step
+    ignores as the code does): the handled events are exactly those events of the unlimited run
+    from that state whose timestamp is ≤ `T`, in the same order. -/
+theorem dispatchUntil_exactly_events_le (n t : Nat) (hn : 1 ≤ n) (ht : 1 ≤ t) (start : Nat)
+    (l : Limit) (prog : Prog) (fuel : Nat) (cmds0 : List Cmd) (T : Nat) :
+    handledOf (dispatchUntil cqES prog fuel T (C02.session n t start l prog fuel cmds0).1).2 =
+      (handledOf (dispatchAll cqES prog fuel
+        { (C02.session n t start l prog fuel cmds0).1 with limit := .none }).2).filter
+        (fun p => decide (p.2 ≤ T)) := by
+  obtain ⟨_, hrel, _⟩ := C02.runtime_refines_spec n t hn ht start l prog fuel cmds0
+  have hinv : RInv (C02.specSession start l prog fuel cmds0).1 :=
+    (C02.spec_session_run start l prog fuel cmds0).inv'
+  have h1 := (execCmd_sim cq_fes_sim prog fuel hrel (.stepUntil T)).1
+  simp only [execCmd] at h1
+  have h2 := (dispatchAll_sim cq_fes_sim prog fuel (withLimit_sim hrel .none)).1
+  rw [h1, h2]
+  have h3 := dispatchUntil_exact prog fuel T (C02.specSession start l prog fuel cmds0).1
+  have hm := (dispatchAll_run prog fuel (withLimit_inv hinv .none)).1.mono
+  rw [h3]
+  exact takeWhile_eq_filter_of_mono T _ hm
+
+/-- **`dispatch_n_events(k)` dispatches exactly the next `k` events (or all that remain)** — on the
+    calendar-queue runtime, from the paused state of any session and for any builder limit: the
+    handled events are the first `k` of the unlimited run from that state, so their number is
+    `min k (number of events the unlimited run handles)`. -/
+theorem dispatchN_exactly_next_k (n t : Nat) (hn : 1 ≤ n) (ht : 1 ≤ t) (start : Nat)
+    (l : Limit) (prog : Prog) (fuel : Nat) (cmds0 : List Cmd) (k : Nat) :
+    handledOf (dispatchN cqES prog fuel k (C02.session n t start l prog fuel cmds0).1).2 =
+      (handledOf (dispatchAll cqES prog fuel
+        { (C02.session n t start l prog fuel cmds0).1 with limit := .none }).2).take k := by
+  obtain ⟨_, hrel, _⟩ := C02.runtime_refines_spec n t hn ht start l prog fuel cmds0
+  have h1 := (execCmd_sim cq_fes_sim prog fuel hrel (.stepN k)).1
+  simp only [execCmd] at h1
+  have h2 := (dispatchAll_sim cq_fes_sim prog fuel (withLimit_sim hrel .none)).1
+  rw [h1, h2]
+  exact dispatchN_exact prog fuel k (C02.specSession start l prog fuel cmds0).1
+
 /-- a step stops only when the event set is empty or the next event is beyond the step's bound
     (unless the fuel ran out), and leaves the builder's limit in place -/
 theorem step_stops_at_bound (prog : Prog) (fuel n : Nat) (s : S) :
